@@ -71,6 +71,10 @@ Viols(e, pre, post, enrNext) ==
      (IF e.obs.lifeSec # 86400 THEN {<<"C03", "created-request-lifetime-not-documented-24h">>} ELSE {}) \cup
      (IF e.res # "ok" THEN {<<"C03", "fresh-honest-request-refused">>} ELSE {})
    ELSE {}) \cup
+  \* the inner request of a rotation is an enrolment request like any other: outside its window (configured skews) it is
+  \* refused before anything is decided or written
+  (IF {"C03", "C10"} \cap Props # {} /\ e.op.op = "Rotate" /\ e.op.win # "ok" /\ (e.res = "rotated" \/ post.nodes # pre.nodes)
+     THEN {<<(IF "C10" \in Props THEN "C10" ELSE "C03"), "rotation-with-inner-request-outside-its-window-processed">>} ELSE {}) \cup
   (IF "C05" \in Props /\ e.op.op = "GenCerts" THEN
      (IF e.res \in {"certs", "certs+state"} /\ ~(e.op.skip \/ GenOK(pre, e.op)) THEN {<<"C05", "certs-without-verified-signature">>} ELSE {}) \cup
      (IF ~e.op.skip /\ ~GenOK(pre, e.op) /\ e.res # "error" THEN {<<"C05", "unverified-not-refused">>} ELSE {}) \cup
